@@ -32,6 +32,7 @@ THEOREMS = [
     "SyneTune.C12b.finished_before",
     "SyneTune.C12b.finished_first",
     "SyneTune.C12b.finished_overshoot_partial",
+    "SyneTune.C12b.finished_overshoot_wait",
     "SyneTune.C12b.finished_overshoot_counterexample",
     "SyneTune.C12b.finished_mark",
     "SyneTune.C12b.finished_marked_counterexample",
@@ -71,15 +72,17 @@ def gen_cases(rng, tier):
 def corpus():
     p = os.path.join(os.path.dirname(__file__), "..", "corpus", "c12.json")
     fixed = json.load(open(p)) if os.path.exists(p) else []
-    return fixed + loop.witness_specs(DRIVER)  # the runs of Lemmas/TunerWitnessData.lean, replayed on the real Tuner
+    # the runs of Lemmas/TunerWitnessData.lean and Lemmas/TunerC12bWitness.lean, replayed on the real Tuner
+    return fixed + loop.witness_specs(DRIVER)
 
 
 def run_impl(spec):
     t = loop.run_loop(spec)
     try:
         lines = loop.to_lines(t)
-        mon = loop.monitor_c12(t)
+        mon = loop.monitor_c12(t) + loop.monitor_witness(t)
         hist = loop.histogram(t)
+        hist.update(loop.witness_hist(t))
         crit = [v for _, v in t["recorder"].crit_trace]
         ended = bool(crit and crit[-1]) or hist.get("injected-exception-hit") or any(
             e["ans"] == {"kind": "none"} for e in t["dlg"].entries)
@@ -90,3 +93,10 @@ def run_impl(spec):
 
 def nontrivial(trace):
     return bool(trace.get("meta", {}).get("ended"))
+
+
+def extra(ctx):
+    """the witnesses of the `_counterexample` theorems are corpus cases (handed out by the model driver, replayed call by
+    call on the real Tuner); record whether this run of the check replayed each of them, with the model's final counters
+    and the monitor signature that goes with it"""
+    ctx.notes["counterexamples_replayed_on_real_code"] = loop.witness_report(ctx, THEOREMS)
